@@ -44,6 +44,12 @@ func concOps() []cop {
 		{"walk2", memfs.ClassRead, "Walk", 'd', 'u', false, func(p *rawpeer.Peer, tag uint16, fid, aux uint64, ch string) {
 			p.Send(wire.Twalk, tag, fid, u(900+uint64(tag)), []string{"b", "f"})
 		}},
+		// a one-name walk parked in the GetAttr the server makes on the file it
+		// just walked to (the backend has no WalkGetAttr here): a read-class call
+		// on the CHILD's path, before the new fid is registered anywhere
+		{"walk-ga", memfs.ClassRead, "GetAttr", 'd', 'u', false, func(p *rawpeer.Peer, tag uint16, fid, aux uint64, ch string) {
+			p.Send(wire.Twalk, tag, fid, u(900+uint64(tag)), []string{ch})
+		}},
 		{"clone", memfs.ClassRead, "Walk", '*', 'u', false, func(p *rawpeer.Peer, tag uint16, fid, aux uint64, ch string) {
 			p.Send(wire.Twalk, tag, fid, u(900+uint64(tag)), []string{})
 		}},
@@ -316,7 +322,7 @@ func rendezvousAfter(c *ev.Ctx, w *concWorld, a cop, ta ctarget, b cop, tb ctarg
 			return out, false
 		}
 		ca.s.clunk(pf)
-	} else if hist != "" && ok1 && ok2 {
+	} else if hist != "" && hist != "rebind" && ok1 && ok2 {
 		if ta.path == "/" {
 			return out, false
 		}
@@ -345,6 +351,8 @@ func rendezvousAfter(c *ev.Ctx, w *concWorld, a cop, ta ctarget, b cop, tb ctarg
 			return cl.Args != "" && cl.Path == ta.path
 		case "walk2":
 			return cl.Args != "" && cl.Path == ta.path+"/b"
+		case "walk-ga":
+			return cl.Path == strings.TrimSuffix(ta.path, "/")+"/"+ta.child
 		}
 		return cl.Path == ta.path
 	}}, 1)
@@ -364,6 +372,19 @@ func rendezvousAfter(c *ev.Ctx, w *concWorld, a cop, ta ctarget, b cop, tb ctarg
 	}
 	out.parkedA = true
 	out.aCall = gate.Parked()[0]
+	if hist == "rebind" && rel != "same-fid" {
+		// while A is parked, B's fid - the only fid on its path - is clunked
+		// and a fresh one is bound by a new walk: the path is the same, the
+		// lock that orders B against A must be too
+		cb.s.clunk(fb)
+		nfb, okb := cb.fidAt(tb.path, b.stateFor(tb), tb.dir)
+		if !okb {
+			gate.Release()
+			ca.p.WaitTag(tagA, fromA)
+			return out, false
+		}
+		fb = nfb
+	}
 	callsBefore := w.fs.TotalCalls()
 	fromB := cb.p.NReplies()
 	b.send(cb.p, tagB, fb, 801, tb.child)
